@@ -23,10 +23,12 @@ mkdir -p $DST
 cp $SRC/patch.diff $SRC/demo_test.go $DST/
 checks=""
 for c in $ID "$@"; do
-  out=$(GOVC_OUT=$D/out GOVC_REPO=$D/repo /verif/bin/govc check $c 2>&1); rc=$?
+  out=$(GOVC_OUT=$D/out GOVC_REPO=$D/repo ${GOVC_BIN:-/verif/bin/govc} check $c 2>&1); rc=$?
   nv=$(echo "$out" | grep -c '^VIOLATION')
+  nr=$(echo "$out" | grep '^VIOLATION' | grep -vc 'no-failing-input-found')
+  rp=false; [ "$nr" -gt 0 ] && rp=true
   first=$(echo "$out" | grep -m1 '^VIOLATION' | sed 's/.*replays\/[^\/]*\///' )
-  checks="$checks{\"check\":\"$c\",\"exit\":$rc,\"violation_lines\":$nv,\"first\":\"$first\"},"
+  checks="$checks{\"check\":\"$c\",\"exit\":$rc,\"violation_lines\":$nv,\"replayed\":$rp,\"first\":\"$first\"},"
 done
 python3 - "$SRC/meta.json" "$DST/meta.json" "$ID" "$M" $clean_rc $build_rc $suite_rc $mut_rc "[${checks%,}]" <<'PY'
 import json,sys
